@@ -89,8 +89,8 @@ def run(ctx):
             if miss is not None: bad = 'the quadruple %r is never split into two simultaneous pairs' % (miss,)
         if bad: ctx.violation('C18 pair_within_simultaneously(range(%d)): %s' % (n, bad), rp)
     # symmetric / binned variants: quadruples whose bin indices xor to zero must be covered
-    for nf in range(2, N(7, 11)):
-        for ns in range(0, 4):
+    for nf in range(2, N(9, 16)):
+        for ns in range(0, N(4, 5)):
             if 2 ** ns > 2 * nf: continue
             lab = list(range(2 * nf)); rp = {'call': 'pair_within_simultaneously_symmetric', 'num_fermions': nf, 'num_symmetries': ns}
             ps = guarded('pws_symmetric', rp, lambda: [tuple(p) for p in fp.pair_within_simultaneously_symmetric(nf, ns)])
